@@ -70,6 +70,10 @@ def run(ctx):
             ctx.guard(guarded_const_index, ctx, cfg, fs)
         import docwalk
         ctx.guard(docwalk.payload_writers, ctx, cfg, fs, 'I.invariant')
+        ctx.guard(docwalk.cursor_advance, ctx, cfg, fs, 'I.invariant')
+        if fs.find(r'^buffer::manpage::escape::escape$', required=False):
+            import c16
+            ctx.guard(c08.keep_only, ctx, lambda: c16.escaper(ctx, cfg, fs), lambda o: 'table-closed' in o.key or 'verbatim' in o.key or 'Spaces' in o.key or 'non-ascii' in o.key, 'I.invariant')
         ctx.guard(loops, ctx, cfg, fs)
         ctx.guard(recursion, ctx, cfg, fs)
         ctx.guard(group_flag, ctx, cfg, fs)
